@@ -367,7 +367,7 @@ class RunArm(Arm):
     budget = {"quick": 400, "thorough": 4000}
     min_per_shard = 10
     case_timeout = 120
-    required_labels = ("euler", "scipy", "delay_not_multiple_of_dt", "coarse_sampling")
+    required_labels = ("euler", "scipy", "delay_not_multiple_of_dt", "coarse_sampling", "backend:torch:scipy", "backend:jax:scipy")
 
     def strategy(self, ctx):
         @st.composite
@@ -376,7 +376,9 @@ class RunArm(Arm):
             return {"spec": spec, "cfg": {"solver": draw(st.sampled_from(["euler", "euler", "scipy"])),
                                           "dt": draw(st.sampled_from([0.01, 0.02, 0.03])),
                                           "steps": draw(st.integers(20, 60)), "vectorize": False,
-                                          "coarse": draw(st.sampled_from([8, 10, 15]))}}
+                                          "coarse": draw(st.sampled_from([8, 10, 15])),
+                                          # one case in five runs on another backend's implementation of the solver
+                                          "backend": draw(st.sampled_from(["default"] * 8 + ["torch", "jax"]))}}
         from ..finding_predicates import repair_case
         return case().map(lambda c: repair_case(c, ctx))
 
@@ -437,12 +439,21 @@ class RunArm(Arm):
         if not np.all(np.isfinite(ref)) or np.max(np.abs(ref)) > 1e6:
             res.rejected = "reference not benign"
             return res
+        be = cfg.get("backend", "default")
+        if be != "default":
+            kw = dict(kw, backend=be)
+            res.labels.append(f"backend:{be}:{solver}")
         try:
             df = run_circuit(spec, T, dt, dict(outputs), vectorize=False, solver=solver, **kw)
             a = np.column_stack([np.asarray(df[f"v{i}"], dtype=float) for i in range(len(sp))])
         except HarnessError:
             raise
         except Exception as e:
+            if be != "default" and solver == "euler":
+                # a backend whose fixed-step solver cannot keep a history may refuse delayed models (it must not
+                # return numbers then): the property speaks about the combinations that accept them
+                res.rejected = f"{be} refuses delayed models under {solver}: {type(e).__name__}"
+                return res
             res.violate(exc_bucket(f"run-raises:{solver}", e), f"delays {delays}: {short_exc(e)}")
             return res
         if a.shape != ref.shape:
